@@ -6,7 +6,7 @@
    correspondence (each order is run on gfapy and on the model and compared step by step) and by the oracle (all
    permutations of <= 6 lines / 30 shuffles must give one canonical observation). *)
 From Coq Require Import List String Ascii ZArith Bool.
-From GfaV Require Import Base.Py Model.Codec Model.Line Model.Graph Proofs.GraphP Corr.Graphc.
+From GfaV Require Import Base.Py Model.Codec Model.Line Model.Graph Proofs.GraphP Proofs.FrameP Proofs.RealsP Corr.Graphc.
 Import ListNotations.
 Open Scope string_scope.
 
@@ -36,6 +36,40 @@ Proof. exact names_unique_reachable. Qed.
 Print Assumptions C03_unique_identifiers_in_every_order.
 
 (* two arrival orders of one document: same lines, same placeholders (a concrete instance, not the general claim) *)
+(* the same written records in every order.  [reals] are the lines of the Gfa that are not placeholders, [body] what a
+   line says (record type, positional fields, tags).  An accepted addition that meets no stored record of its identifier
+   appends exactly the added line to the records and changes no other; so two arrival orders of the same lines, both read
+   completely, hold the same records (as a multiset: the order of arrival is the order in which they are written). *)
+Theorem C03_addition_appends_the_record : forall s l s',
+  ids_ok s -> no_real_duplicate s l -> connect s l = Ok s' ->
+  map body (reals s') = (map body (reals s) ++ [body l])%list.
+Proof. exact connect_reals. Qed.
+Print Assumptions C03_addition_appends_the_record.
+
+Theorem C03_orders_hold_the_same_records : forall ls ls' s1 s2 v vl,
+  Permutation.Permutation ls ls' ->
+  guards_all (init_gfa v vl) ls -> guards_all (init_gfa v vl) ls' ->
+  connect_all (init_gfa v vl) ls = Ok s1 -> connect_all (init_gfa v vl) ls' = Ok s2 ->
+  Permutation.Permutation (map body (reals s1)) (map body (reals s2)).
+Proof. exact orders_same_records. Qed.
+Print Assumptions C03_orders_hold_the_same_records.
+
+(* non-vacuity: a document with a link and a path read before their segments, in document order and reversed; the guards
+   hold along both runs, both end in a state, no placeholder is left, and the records are the four lines *)
+Example C03_records_witness :
+  let S n := mkGl 0 KS1 [n; "*"] [] false in
+  let L := mkGl 0 KL ["A"; "+"; "B"; "-"; "4M"] [] false in
+  let P := mkGl 0 KP ["p"; "A+,B-"; "*"] [] false in
+  let d1 := [S "A"; S "B"; L; P] in
+  let d2 := [P; L; S "B"; S "A"] in
+  guards_all_b (init_gfa "gfa1" 1) d1 = true /\ guards_all_b (init_gfa "gfa1" 1) d2 = true /\
+  match connect_all (init_gfa "gfa1" 1) d1, connect_all (init_gfa "gfa1" 1) d2 with
+  | Ok s1, Ok s2 => map body (reals s1) = map body d1 /\ map body (reals s2) = map body d2 /\
+                    List.length (lines s1) = 4 /\ List.length (lines s2) = 4
+  | _, _ => False
+  end.
+Proof. vm_compute. repeat split. Qed.
+
 Example C03_witness :
   let t := String tab EmptyString in
   let a := OAdd ("S" ++ t ++ "A" ++ t ++ "*") in let b := OAdd ("S" ++ t ++ "B" ++ t ++ "*") in
